@@ -102,7 +102,7 @@ CACHES = ["cold", "sigma", "full"]
 
 
 @st.composite
-def measure_params(draw, kind, R, D, kappa=100.0, extreme=False):
+def measure_params(draw, kind, R, D, kappa=100.0, extreme=False, hetero=False):
     """Defining inputs of a measure/density of the given kind."""
     diag = kind.startswith("diag")
     # magnitude regimes: mostly O(1) payloads, sometimes large / tiny information vectors, means and log-constants,
@@ -119,9 +119,29 @@ def measure_params(draw, kind, R, D, kappa=100.0, extreme=False):
             "nu": draw(arr((R, D))) * vs * (ms ** 0.5),
             "ln_beta": draw(arr((R,))) * draw(st.sampled_from([1.0, 1.0, 1.0, 25.0])),
         }
-        return _exact_structure(draw, p, "Lambda", "nu", ms)
+        return _exact_structure(draw, _hetero_units(draw, p, "Lambda", "nu", hetero, R), "Lambda", "nu", ms)
     p = {"Sigma": draw(spd(R, D, kappa=kappa, diag=diag)) * ms, "mu": draw(arr((R, D))) * vs * (ms ** 0.5)}
-    return _exact_structure(draw, p, "Sigma", "mu", ms)
+    return _exact_structure(draw, _hetero_units(draw, p, "Sigma", "mu", hetero, R), "Sigma", "mu", ms)
+
+
+def _hetero_units(draw, p, mkey, vkey, hetero, R):
+    """Components of one batch are independent objects and may live in different units: where the check asks for it (`hetero`:
+    single-object cases and products whose factor is expressed in component 0's units), a tenth of the batches mix components whose standard deviations differ by up to 1e7 (each component keeps its
+    own condition number).  Anything reduced over the batch axis (a batch-wide mean, max, any/all) couples them."""
+    if not hetero or R < 2 or not draw(st.sampled_from([False] * 9 + [True])):
+        return p
+    k = np.array([draw(st.sampled_from([-4.0, -2.0, 0.0, 3.0])) for _ in range(R)])
+    k = k - k[0]  # component 0 keeps the units of the case (evaluation points, factors)
+    if np.all(k == 0):
+        k[1] = draw(st.sampled_from([-7.0, -4.0, 4.0, 7.0]))
+    sd = 10.0 ** k
+    sgn = -1.0 if mkey == "Lambda" else 1.0
+    p = dict(p)
+    p[mkey] = np.array(p[mkey], float) * (sd ** (2 * sgn))[:, None, None]
+    p[vkey] = np.array(p[vkey], float) * (sd ** sgn)[:, None]
+    p["_hetero"] = True
+    p["_structure"] = "components_in_different_units"
+    return p
 
 
 STRUCTURES = ["diagonal_in_full_class", "isotropic", "vector_exactly_zero", "ln_beta_exactly_zero", "identical_components",
@@ -132,7 +152,7 @@ def _exact_structure(draw, p, mkey, vkey, ms):
     """Exact structure that element-wise random floats never produce (an eighth of the cases): exactly diagonal or isotropic
     matrices in the full class, an exactly zero vector / log-constant, zero entries, two identical components, integer-valued
     data.  Fast paths and 'simplifications' are typically keyed on, or only valid for, such inputs."""
-    if not draw(st.sampled_from([False] * 7 + [True])):
+    if p.get("_hetero") or not draw(st.sampled_from([False] * 7 + [True])):
         return p
     which = draw(st.sampled_from(STRUCTURES))
     A, v = np.array(p[mkey], float), np.array(p[vkey], float)
